@@ -113,8 +113,9 @@ fn res_of(shape: &str) -> (IpResources, IpResources, AsResources) {
     match shape {
         "one" => (IpResources::blocks([v4("10.0.0.0/8")].into_iter().collect()), IpResources::missing(), AsResources::blocks([AsBlock::Id(Asn::from_u32(64496))].into_iter().collect())),
         "many" => (
-            IpResources::blocks([v4("192.168.1.0/24"), v4("10.0.0.0/8"), v4("10.0.0.7-10.0.0.9"), v4("11.0.0.0-11.0.0.255")].into_iter().collect::<IpBlocks>()),
-            IpResources::blocks([v6("2001:db8::/32"), v6("2001:db9::-2001:db9::17")].into_iter().collect::<IpBlocks>()),
+            // (ranges that are no prefixes: odd lower bound with even upper bound, and bounds whose own prefixes have full length)
+            IpResources::blocks([v4("192.168.1.0/24"), v4("10.0.0.0/8"), v4("10.0.0.7-10.0.0.9"), v4("11.0.0.0-11.0.0.255"), v4("12.0.0.1-12.0.0.6"), v4("13.0.0.0-13.0.0.1"), v4("14.0.0.2-14.0.0.4")].into_iter().collect::<IpBlocks>()),
+            IpResources::blocks([v6("2001:db8::/32"), v6("2001:db9::-2001:db9::17"), v6("2001:dba::1-2001:dba::fffe"), v6("2001:dbb::-2001:dbb::2")].into_iter().collect::<IpBlocks>()),
             AsResources::blocks([asr(65000, 65010), AsBlock::Id(Asn::from_u32(64496)), asr(65011, 65020)].into_iter().collect::<AsBlocks>()),
         ),
         "ends" => (
@@ -267,7 +268,13 @@ fn run_case(ctx: &mut Ctx, c: &Value) -> R<()> {
         "mft" => {
             let names = ["a.cer", "B-2_x.roa", "zz9.crl", "0.mft"];
             let files: Vec<FileAndHash<Bytes, Bytes>> = items.iter().map(|i| FileAndHash::new(Bytes::from_static(names[*i as usize - 1].as_bytes()), Bytes::from(crate::cms::sha256(names[*i as usize - 1].as_bytes())))).collect();
-            let content = ManifestContent::new(serial, validity.not_before(), validity.not_after(), DigestAlgorithm::default(), files.iter());
+            // the file list as a slice iterator, or as an iterator that cannot say how many items it has (size_hint lower bound 0)
+            let content = if c["feed"] == "lazy" {
+                let mut seen = 0usize;
+                ManifestContent::new(serial, validity.not_before(), validity.not_after(), DigestAlgorithm::default(), files.iter().filter(|_| { seen += 1; true }))
+            } else {
+                ManifestContent::new(serial, validity.not_before(), validity.not_after(), DigestAlgorithm::default(), files.iter())
+            };
             let built = content.into_manifest(sob(), &pki.signer, &k0).map_err(|x| ("mft:build".to_string(), x.to_string()))?;
             let bytes = built.to_captured().into_bytes();
             let twin = Manifest::decode(bytes.clone(), true).or_else(|x| e("mft:decode", x))?;
@@ -283,6 +290,7 @@ fn run_case(ctx: &mut Ctx, c: &Value) -> R<()> {
             let lb: Vec<_> = twin.content().iter().map(|f| f.into_pair()).collect();
             same!(kind, "iter", la, lb);
             same!(kind, "iter-count", lb.len(), items.len());
+            same!(kind, "len-is-count", built.content().len(), items.len());
             let base = rsync("rsync://repo.example/m/ca/");
             let ua: Vec<_> = built.content().iter_uris(&base).map(|(u, h)| (u, h.as_slice().to_vec())).collect();
             let ub: Vec<_> = twin.content().iter_uris(&base).map(|(u, h)| (u, h.as_slice().to_vec())).collect();
